@@ -191,6 +191,11 @@ def build(ctx, cfg):
             d[POS] = [float(s), float(2 * s)]
         if with_seg:
             d["area"] = float(s + 1)
+        if cfg.get("custom"):
+            # a registered custom node feature with arbitrary integer values (a loaded, never recomputed feature)
+            p.cus0 = getattr(p, "cus0", {})
+            p.cus0[s] = z3.Int(f"cus{ids[s]}")
+            d[CUS] = SInt(p.cus0[s])
         g.nattr[s] = d
     sh = I.Shape(g)
     p.sh0 = sh
@@ -224,6 +229,9 @@ def build(ctx, cfg):
                         pos_attr=["y", "x"] if multi_pos and seg is None else None, scale=scale)
     if multi_pos and seg is not None:
         raise AssertionError("per-axis position only without segmentation")
+    if cfg.get("custom"):
+        tr.features[CUS] = {"feature_type": "node", "value_type": "int", "num_values": 1, "required": False,
+                            "default_value": None, "display_name": "Custom Score"}
     tr.graph = g
     tr.segmentation = seg
     p.scale0 = None if scale is None else list(scale)
@@ -246,6 +254,7 @@ def build(ctx, cfg):
     ctx.input("seg", None if seg is None else [p.seg0[idx] for idx in np.ndindex(*shape)])
     ctx.input("scale", p.scale0)
     ctx.input("multi_pos", multi_pos)
+    ctx.input("cus", None if not cfg.get("custom") else {str(k): v for k, v in p.cus0.items()})
     return p
 
 
